@@ -313,6 +313,48 @@ def render_assoc(idx, recv, override):
 """
 
 
+def render_nested(idx, variant):
+    """Delegation inside delegation, and a derived mock lent from inside a delegated body: the
+    default bodies run against the same mock, and the final verification judges the counts."""
+    if variant == "nested":
+        answer = "&|u, x| if x > 0 { u.q(x - 1) } else { 5 }"
+        calls = "let got = u.p(2);"
+        want = "7"          # p(2) -> r0(2) -> q(1) = r0(1) + 1 -> q(0) = r0(0) + 1 = 6 -> 7 ; p adds nothing
+        n_r0 = 3
+    else:
+        # the required method parks a clone of the mock in the instance it runs on
+        answer = "&|u, x| { let _lent: &Unimock = u.make_ref(u.clone()); x as u64 + 40 }"
+        calls = "let got = u.p(2);"
+        want = "42"
+        n_r0 = 1
+    return f"""    #[unimock(api=Mk)]
+    pub trait Tr {{
+        fn r0(&self, x: u8) -> u64;
+        fn p(&self, x: u8) -> u64 {{
+            self.r0(x)
+        }}
+        fn q(&self, x: u8) -> u64 {{
+            self.r0(x) + 1
+        }}
+    }}
+    pub fn run() -> Result<(), String> {{
+        let u = Unimock::new(Mk::r0.each_call(matching!(_)).answers({answer}).n_times({n_r0}));
+        {calls}
+        if got != {want} {{
+            return Err(format!("the delegated bodies evaluated to {{got}}, expected {want}"));
+        }}
+        let direct = u.r0(0);
+        let _ = direct;
+        // one direct call too many on purpose: the verdict must be about the count ({n_r0} expected,
+        // {n_r0 + 1} matched), whatever the delegation helpers still hold
+        match vh::obs::catch(move || drop(u)) {{
+            Err(msg) if msg.contains("to match exactly {n_r0} call") && msg.contains("matched {n_r0 + 1} calls") && msg.lines().count() == 1 => Ok(()),
+            other => Err(format!("expected exactly the count line ({n_r0} expected, {n_r0 + 1} matched), observed {{other:?}}")),
+        }}
+    }}
+"""
+
+
 def shapes(tier):
     out = []
     for recv, body, sig, clause, mode, order in itertools.product(RECVS, BODIES, ["simple", "rich"], ["implicit", "explicit"], ["strict", "partial"], ["unordered", "ordered"]):
@@ -344,6 +386,8 @@ def run(pid, tier, replay, start):
         for override in (True, False):
             k = f"assoc-items/{recv}/{'attribute-overrides-default-const' if override else 'default-const-kept'}"
             insts.append(Instance(len(insts), k, render_assoc(len(insts), recv, override), {"body": 1, "recv": recv}))
+    for variant in ("nested", "lent-handle"):
+        insts.append(Instance(len(insts), f"delegation-in-delegation/{variant}", render_nested(len(insts), variant), {"body": 1, "recv": "ref"}))
     if replay:
         import json
         want = json.load(open(replay))["case"]["shape"]
